@@ -22,7 +22,9 @@ RULE = (
     "between the writes through the mutable values it holds (typed-list methods, digest / command attributes, fields of nested "
     "records, untyped values appended / assigned into typed lists in place - observed as what the element type makes of them) - every "
     "write must emit the state at that moment; 'surrogate' cases hold text with lone surrogates outside U+DC80..DCFF: a record the "
-    "packer refuses with UnicodeEncodeError is left out, one it accepts must round-trip like any other.  A case is non-trivial when at least one record was written and read back; distinct = distinct "
+    "packer refuses with UnicodeEncodeError is left out, one it accepts must round-trip like any other.  Reading is not always one "
+    "uninterrupted loop: full / peek-then-loop / islice batches / break-and-come-back rotate over the cases; every third 'path' case "
+    "names the file 'stream://<path>.<json|csv|jsonl|avro|txt>' (explicit scheme, foreign extension).  A case is non-trivial when at least one record was written and read back; distinct = distinct "
     "(recipe kind, focus cell, access path, sub-seed).  Oracle: canonical deep observation (class names, float bits, "
     "code points, wall clock + utcoffset, flavour, address family, list order; typed-list/digest None == empty default) "
     "of what was written, taken before writing, equals that of what was read; Record.__eq__ is never used."
